@@ -3,7 +3,8 @@
 // Command c17 replays the cases of spec/net/Connection.tla on real
 // ouroboros.Connections.  One case = one configuration (client/server,
 // node-to-node / node-to-client / DMQ, full duplex requested locally, the
-// peer's advertised diffusion mode and peer-sharing flag, negotiated version)
+// peer's advertised diffusion mode and peer-sharing flag, negotiated version,
+// and the local options that never go on the wire: WithKeepAlive on or off)
 // and one inbound segment (protocol number x direction).  The connection runs
 // on an in-memory pipe against a raw segment-level peer that performs the
 // handshake by hand (selecting exactly the row's version with the row's flags)
@@ -93,6 +94,8 @@ type row struct {
 	Ver         int      `json:"ver"`
 	Lps         bool     `json:"lps"`
 	Pps         bool     `json:"pps"`
+	Lka         *bool    `json:"lka,omitempty"` // local WithKeepAlive; rows recorded before the dimension existed ran with it on
+	Optional    [][]any  `json:"optional,omitempty"`
 	Roles       []string `json:"roles"`
 	Enabled     []int    `json:"enabled"`
 	Constructed [][]any  `json:"constructed"`
@@ -112,8 +115,15 @@ func (r *row) cfgKey() string {
 	if r.Server {
 		side = "server"
 	}
-	return fmt.Sprintf("%s:%s:v=%d:lfd=%d:pfd=%d:lps=%d:pps=%d", r.Kind, side, r.Ver, b01(r.Lfd), b01(r.Pfd), b01(r.Lps), b01(r.Pps))
+	k := fmt.Sprintf("%s:%s:v=%d:lfd=%d:pfd=%d:lps=%d:pps=%d", r.Kind, side, r.Ver, b01(r.Lfd), b01(r.Pfd), b01(r.Lps), b01(r.Pps))
+	if !r.keepAliveOpt() {
+		k += ":lka=0" // the keys of the rows with the option on are the keys from before the dimension existed
+	}
+	return k
 }
+
+// keepAliveOpt is the row's local WithKeepAlive option.
+func (r *row) keepAliveOpt() bool { return r.Lka == nil || *r.Lka }
 
 func (s *segRow) key() string {
 	d := "req"
@@ -589,7 +599,7 @@ func run(j *job, final bool) (undecided string, class string) {
 			ouroboros.WithServer(r.Server),
 			ouroboros.WithFullDuplex(r.Lfd),
 			ouroboros.WithPeerSharing(r.Lps),
-			ouroboros.WithKeepAlive(true), // the application runs the keep-alive initiator (it is opt-in)
+			ouroboros.WithKeepAlive(r.keepAliveOpt()), // local only: whether the application runs the keep-alive initiator
 			ouroboros.WithLogger(logger),
 			ouroboros.WithPeerSharingConfig(psCfg),
 		}
@@ -1011,6 +1021,13 @@ func main() {
 			}
 		}
 		rep.Extra["configurations"] = len(rows)
+		nOff := 0
+		for i := range rows {
+			if !rows[i].keepAliveOpt() {
+				nOff++
+			}
+		}
+		rep.Extra["configurations_with_keep_alive_option_off"] = nOff
 		rep.Extra["variants_per_case"] = variants
 	}
 	workers := 2 * runtime.GOMAXPROCS(0)
